@@ -1,19 +1,557 @@
-//! Special scenarios (enumerations and twin runs).
+//! Special scenarios: twin runs (C13 cancellation, C15 fragmentation, C17 ageing), fault
+//! enumeration (C11/C12), legality table (C19), byte strings (C08).
 
-use crate::util::Tape;
-use crate::world::{Profile, RunCfg};
+use crate::app::*;
+use crate::broker;
+use crate::clock;
+use crate::codec::{self, Packet};
+use crate::run::{self, with_session};
+use crate::util::{mix, Tape};
+use crate::world::{self, with, Accept, OpWeights, Phase, Profile, RunCfg, Violation, World};
 use crate::Scenario;
 
 pub fn extra_scenarios() -> Vec<Scenario> {
-    vec![]
+    vec![
+        Scenario::CancelTwin,
+        Scenario::FragTwin(0),
+        Scenario::FragTwin(1),
+        Scenario::FaultEnum(0),
+        Scenario::FaultEnum(1),
+        Scenario::Table,
+        Scenario::AgeTwin,
+        Scenario::Bytes(0),
+        Scenario::Bytes(1),
+        Scenario::Bytes(2),
+    ]
 }
 
-pub fn implemented(_s: Scenario) -> bool {
+pub fn implemented(s: Scenario) -> bool {
+    extra_scenarios().contains(&s)
+}
+
+fn twin_cfg(t: &mut Tape) -> RunCfg {
+    let mut c = run::gen_cfg(t, Profile::Twin);
+    c.profile = Profile::Twin;
+    c.keepalive_s = 0;
+    c.session_expiry = 3600;
+    c.tx_len = [1152usize, 4096, 512][t.choose(3) as usize];
+    c.rx_len = [128usize, 256, 1024, 64][t.choose(4) as usize];
+    c.id_burn = 0;
+    c.guards = false;
+    c.payload_law = t.choose(2);
+    c.delay_law = 0;
+    c.p_io_err = 0;
+    c.p_connack_fault = 0;
+    c.p_session_loss = 0;
+    c.p_small_limits = 0;
+    c.p_stale_ack = 0;
+    c.p_no_pingresp = 0;
+    c.p_withhold_ack = [0, 200, 500][t.choose(3) as usize];
+    c.p_fail_reason = [0, 100][t.choose(2) as usize];
+    c.p_dup_inbound = [0, 200][t.choose(2) as usize];
+    c.downgrade = false;
+    c.zero_time_io = false;
+    c
+}
+
+pub fn cfg_for(scn: Scenario, t: &mut Tape, extra: u64) -> RunCfg {
+    match scn {
+        Scenario::CancelTwin => {
+            let mut c = twin_cfg(t);
+            c.p_stall = [150, 300, 500][t.choose(3) as usize];
+            c.p_partial_write = [200, 600, 900][t.choose(3) as usize];
+            c.p_frag_read = [0, 400][t.choose(2) as usize];
+            c.p_cancel = [200, 400, 700][t.choose(3) as usize];
+            c
+        }
+        Scenario::FragTwin(k) => {
+            let mut c = twin_cfg(t);
+            c.p_stall = 0;
+            c.p_cancel = 0;
+            c.p_partial_write = [300, 700, 950][t.choose(3) as usize];
+            c.p_frag_read = [300, 700, 950][t.choose(3) as usize];
+            if k == 0 {
+                c.p_partial_write = 0;
+                c.p_frag_read = 0;
+                c.client_id = "c".into();
+                c.will = None;
+                c.auth = None;
+                c.rx_len = 64;
+                c.tx_len = 256;
+            }
+            c
+        }
+        Scenario::FaultEnum(_) | Scenario::Table => {
+            // the pre-state is a function of `extra` only (not of the batch seed)
+            let pre = extra % PRESTATES;
+            let mut pt = Tape::generate(mix(0xFA17, pre));
+            let mut c = run::gen_cfg(&mut pt, Profile::General);
+            c.p_io_err = 0;
+            c.p_connack_fault = 0;
+            c.max_conns = 1 + (pre % 3) as u32;
+            c.max_steps = 4 + (pre % 23) as u32;
+            c.w.disconnect = 0;
+            c.w.drop_conn = if pre % 3 == 0 { 0 } else { 2 };
+            c.w.forget_conn = 0;
+            c.w.invalid = 0;
+            c.w.broker_fault = 0;
+            c.guards = true;
+            if c.tx_len < 256 {
+                c.tx_len = 256;
+            }
+            if c.session_expiry == 0 {
+                c.session_expiry = 3600;
+            }
+            let _ = t;
+            c
+        }
+        Scenario::AgeTwin => {
+            let mut c = run::gen_cfg(t, Profile::Aging);
+            c.guards = true;
+            c.p_small_limits = 0;
+            c.downgrade = false;
+            c.id_burn = 0;
+            c.max_steps = 100 + t.choose(900);
+            c.tx_len = [64usize, 96, 128, 256, 1152, 4096][t.choose(6) as usize];
+            let need = 60 + c.client_id.len().max(12) + c.will.as_ref().map_or(0, |w| w.topic.len() + w.payload.len() + 40) + c.auth.as_ref().map_or(0, |a| a.0.len() + a.1.len() + 4);
+            if c.tx_len < need {
+                c.tx_len = need + 32;
+            }
+            c
+        }
+        Scenario::Bytes(_) => {
+            let mut c = run::gen_cfg(t, Profile::Inbound);
+            c.keepalive_s = 0;
+            c.client_id = "b".into();
+            c.will = None;
+            c.auth = None;
+            c.rx_len = 64;
+            c.tx_len = 256;
+            c.session_expiry = 3600;
+            c.id_burn = 0;
+            c.downgrade = false;
+            c.p_stall = 0;
+            c.p_io_err = 0;
+            c.p_cancel = 0;
+            c.p_partial_write = 0;
+            c.p_frag_read = [0, 500, 1000][(extra % 3) as usize];
+            c.p_connack_fault = 0;
+            c.p_small_limits = 0;
+            c.p_session_loss = 0;
+            c.p_withhold_ack = 1000; // keep requests in flight so that acks have something to hit
+            c.p_fail_reason = 0;
+            c.delay_law = 0;
+            c.w = OpWeights::default();
+            c
+        }
+        Scenario::Program(p) => run::gen_cfg(t, p),
+    }
+}
+
+pub const PRESTATES: u64 = 96;
+
+pub fn run_scenario(scn: Scenario, extra: u64) {
+    match scn {
+        Scenario::CancelTwin => cancel_twin(),
+        Scenario::FragTwin(0) => frag_enum(extra),
+        Scenario::FragTwin(_) => frag_twin(),
+        Scenario::FaultEnum(k) => crate::scen2::fault_enum(k, extra),
+        Scenario::Table => crate::scen2::table(extra),
+        Scenario::AgeTwin => crate::scen2::age_twin(),
+        Scenario::Bytes(k) => crate::scen3::bytes(k, extra),
+        Scenario::Program(_) => unreachable!(),
+    }
+}
+
+// ------------------------------------------------------------------ scripts
+
+pub enum SStep {
+    Pub(PubSpec),
+    Sub(SubSpec),
+    Unsub(UnsubSpec),
+    BrokerPub,
+    Poll,
+    Reconnect,
+    Disconnect,
+}
+
+fn gen_script(w: &mut World, with_disconnect: bool) -> Vec<SStep> {
+    let n = 3 + w.tape.choose(14);
+    let mut v = Vec::new();
+    for _ in 0..n {
+        let s = match w.tape.weighted(&[4, 6, 6, 2, 2, 5, 3, 1]) {
+            0 => {
+                SStep::Pub(gen_publish(w, 0))
+            }
+            1 => SStep::Pub(gen_publish(w, 1)),
+            2 => SStep::Pub(gen_publish(w, 2)),
+            3 => SStep::Sub(gen_subscribe(w)),
+            4 => SStep::Unsub(gen_unsubscribe(w)),
+            5 => SStep::BrokerPub,
+            6 => SStep::Poll,
+            _ => SStep::Reconnect,
+        };
+        v.push(s);
+    }
+    if with_disconnect && w.tape.chance(1, 3) {
+        v.push(SStep::Disconnect);
+    }
+    for s in v.iter_mut() {
+        if let SStep::Pub(p) = s {
+            p.payload_fails = false;
+        }
+    }
+    v
+}
+
+/// What one execution of a script looked like from outside.
+pub struct TwinObs {
+    /// per connection: semantic keys of the complete client packets
+    pub keys: Vec<Vec<String>>,
+    pub wires: Vec<Vec<u8>>,
+    pub delivered: Vec<crate::world::Delivered>,
+    pub results: Vec<String>,
+    /// tags that were not accepted in this execution
+    pub not_accepted: Vec<u32>,
+    pub cancelled_after_bytes: u64,
+    pub cancels: u64,
+    pub fragments: u64,
+}
+
+fn drain_to_idle(conn: &mut Conn<'_, '_>) -> bool {
+    let opts = ExecOpts { cancellable: true, idle_cancel: true, budget_us: None, timer_is_idle: true };
+    for _ in 0..400 {
+        let r = do_wait(conn, Wait::Poll, Some(opts));
+        match r {
+            Res::Cancelled => {
+                if with(|w| w.last_cancel_idle) {
+                    return true;
+                }
+            }
+            Res::OkNone | Res::OkMsg(_) | Res::Rejected(_) => {}
+            _ => return false,
+        }
+        if with(|w| w.cut) {
+            return false;
+        }
+    }
     false
 }
 
-pub fn cfg_for(_scn: Scenario, t: &mut Tape, _extra: u64) -> RunCfg {
-    crate::run::gen_cfg(t, Profile::General)
+fn exec_script(session: &mut minimq::Session<'_>, script: &[SStep]) {
+    let mut i = 0;
+    let mut conns = 0;
+    while i <= script.len() && conns < 12 {
+        conns += 1;
+        let mut conn = match do_connect(session, false) {
+            ConnectOutcome::Up(c) => c,
+            ConnectOutcome::Failed(_) => return,
+        };
+        if !drain_to_idle(&mut conn) {
+            with(|w| close_conn(w, "twin: connection lost"));
+            if with(|w| w.cut) {
+                return;
+            }
+            continue;
+        }
+        let mut reconnect = false;
+        while i < script.len() {
+            let step = &script[i];
+            i += 1;
+            let mut dead = false;
+            match step {
+                SStep::Pub(spec) => {
+                    let r = do_publish(&mut conn, spec);
+                    if with(|w| std::mem::replace(&mut w.qos0_cancelled, false)) {
+                        // a cancelled QoS 0 publish is not cancel-safe: the application drops the connection
+                        reconnect = true;
+                    }
+                    dead = r.is_fatal();
+                }
+                SStep::Sub(spec) => dead = do_subscribe(&mut conn, spec).is_fatal(),
+                SStep::Unsub(spec) => dead = do_unsubscribe(&mut conn, spec).is_fatal(),
+                SStep::BrokerPub => {
+                    with(|w| {
+                        let cur = w.cur;
+                        broker::broker_publish(w, cur);
+                    });
+                }
+                SStep::Poll => {}
+                SStep::Reconnect => reconnect = true,
+                SStep::Disconnect => {
+                    let mut tries = 0;
+                    loop {
+                        tries += 1;
+                        let r = do_disconnect(&mut conn, &DiscSpec { reason: None, props: None });
+                        if r != Res::Cancelled || tries >= 6 {
+                            break;
+                        }
+                    }
+                    reconnect = true;
+                    dead = true;
+                }
+            }
+            if dead || with(|w| w.cut) {
+                reconnect = true;
+            }
+            if reconnect {
+                break;
+            }
+            if !drain_to_idle(&mut conn) {
+                break;
+            }
+        }
+        with(|w| close_conn(w, "twin: end of segment"));
+        drop(conn);
+        if i >= script.len() || with(|w| w.cut) {
+            break;
+        }
+    }
 }
 
-pub fn run_scenario(_scn: Scenario, _extra: u64) {}
+fn packet_key(w: &World, p: &Packet) -> String {
+    match p {
+        Packet::Connect { .. } => "CONNECT".into(),
+        Packet::Publish { qos: 0, topic, .. } => format!("PUB0 t{}", world::tag_of_str(topic).unwrap_or(0)),
+        Packet::Publish { topic, .. } => format!("PUB t{}", world::tag_of_str(topic).unwrap_or(0)),
+        Packet::Subscribe { filters, .. } => format!("SUB t{}", filters.first().and_then(|f| world::tag_of_str(&f.filter)).unwrap_or(0)),
+        Packet::Unsubscribe { filters, .. } => format!("UNSUB t{}", filters.first().and_then(|f| world::tag_of_str(f)).unwrap_or(0)),
+        Packet::Ack { typ: 6, id, .. } => {
+            let tag = w.reqs.iter().find(|r| r.id == Some(*id) && r.qos == 2).map(|r| r.tag).unwrap_or(0);
+            format!("PUBREL t{tag}")
+        }
+        Packet::Ack { typ, id, reason, .. } => format!("{} {} {}", codec::type_name_of(*typ), id, reason.unwrap_or(0)),
+        other => other.type_name().to_string(),
+    }
+}
+
+fn observe(w: &World) -> TwinObs {
+    let keys = w.conns.iter().map(|c| c.packets.iter().map(|p| packet_key(w, &p.pkt)).collect()).collect();
+    let wires = w.conns.iter().map(|c| c.wire.clone()).collect();
+    let not_accepted = w
+        .reqs
+        .iter()
+        .filter(|r| r.accept == Accept::NotAccepted || (r.accept == Accept::Maybe && r.tx_by_conn.is_empty()))
+        .map(|r| r.tag)
+        .collect();
+    TwinObs {
+        keys,
+        wires,
+        delivered: w.delivered.clone(),
+        results: w.results.clone(),
+        not_accepted,
+        cancelled_after_bytes: w.stats.probes.get("cancel_after_partial_write").copied().unwrap_or(0),
+        cancels: w.stats.faults.get("cancel_at_stall").copied().unwrap_or(0) + w.stats.faults.get("cancel_at_read_or_timer").copied().unwrap_or(0),
+        fragments: w.stats.faults.get("partial_write").copied().unwrap_or(0) + w.stats.faults.get("fragmented_read").copied().unwrap_or(0),
+    }
+}
+
+/// Swap in a fresh world for the twin execution; returns the first world.
+pub fn second_world(program_vals: Vec<u32>, sched: Option<Tape>) -> Box<World> {
+    let first = world::uninstall();
+    let mut w = World::new(Tape::replay(program_vals, first.tape.entity_seed), first.cfg.clone(), first.seed);
+    w.trace_on = first.trace_on;
+    w.tape.pos = first.script_start_pos;
+    w.script_start_pos = first.script_start_pos;
+    w.sched = sched;
+    w.twin_mode = true;
+    clock::reset();
+    world::install(Box::new(w));
+    first
+}
+
+/// Carry the first world's violations and statistics over into the final world.
+pub fn absorb(first: Box<World>) {
+    with(|w| {
+        let first = *first;
+        for v in first.violations {
+            if !w.violations.iter().any(|x| x.sig == v.sig) {
+                w.violations.push(Violation { at_event: 0, ..v });
+            }
+        }
+        for (k, v) in first.stats.faults {
+            *w.stats.faults.entry(k).or_insert(0) += v;
+        }
+        for (k, v) in first.stats.probes {
+            *w.stats.probes.entry(k).or_insert(0) += v;
+        }
+        for (k, v) in first.stats.ops {
+            *w.stats.ops.entry(k).or_insert(0) += v;
+        }
+        w.stats.polls += first.stats.polls;
+        w.stats.io_calls += first.stats.io_calls;
+        w.stats.events += first.stats.events;
+        w.stats.conns += first.stats.conns;
+        w.stats.states.extend(first.stats.states);
+        w.stats.trigrams.extend(first.stats.trigrams);
+        if w.trace_on {
+            let mut t = first.trace;
+            t.push("======== second execution (twin) ========".into());
+            t.append(&mut w.trace);
+            w.trace = t;
+        }
+    });
+}
+
+fn run_script_world(with_disconnect: bool) -> (TwinObs, Vec<u32>) {
+    // first execution: benign schedule (all-zero schedule tape)
+    with(|w| {
+        w.sched = Some(Tape::replay(Vec::new(), 0));
+        w.twin_mode = true;
+        w.script_start_pos = w.tape.pos;
+    });
+    let script = with(|w| gen_script(w, with_disconnect));
+    let cfg = with(|w| w.cfg.clone());
+    with_session(&cfg, |s| exec_script(s, &script));
+    let obs = with(|w| observe(w));
+    let vals = with(|w| w.tape.vals.clone());
+    (obs, vals)
+}
+
+/// C13: the same script with cancellations must produce the same packets and deliveries.
+fn cancel_twin() {
+    let (base, vals) = run_script_world(true);
+    let seed = with(|w| w.seed);
+    let first = second_world(vals, Some(crate::make_sched(seed)));
+    let script = with(|w| gen_script(w, true));
+    let cfg = with(|w| w.cfg.clone());
+    with_session(&cfg, |s| exec_script(s, &script));
+    let twin = with(|w| observe(w));
+    absorb(first);
+    with(|w| {
+        if twin.cancels > 0 {
+            w.probe("twin_cancelled");
+        }
+        if twin.cancelled_after_bytes > 0 {
+            w.probe("twin_cancelled_after_partial_write");
+        }
+        if w.cut {
+            return;
+        }
+        // remove from the base run what was not accepted in the twin
+        let drop_tag = |k: &String| twin.not_accepted.iter().any(|t| k.ends_with(&format!(" t{t}")));
+        let filt = |v: &Vec<Vec<String>>| -> Vec<String> { v.iter().flatten().filter(|k| !drop_tag(k) && *k != "DISCONNECT").cloned().collect() };
+        let a = filt(&base.keys);
+        let b = filt(&twin.keys);
+        let nd = |v: &Vec<Vec<String>>| v.iter().flatten().filter(|k| *k == "DISCONNECT").count();
+        if nd(&base.keys) != nd(&twin.keys) {
+            w.violate(
+                "C13",
+                "disconnect-count-differs-after-cancelled-disconnect".into(),
+                format!("uncancelled run sent {} DISCONNECT packets, the run with a cancelled and re-issued disconnect() sent {}", nd(&base.keys), nd(&twin.keys)),
+            );
+        }
+        if a != b {
+            let i = a.iter().zip(b.iter()).position(|(x, y)| x != y).unwrap_or(a.len().min(b.len()));
+            let what = |v: &Vec<String>| v.get(i).map(|s| s.split(' ').next().unwrap_or("").to_string()).unwrap_or_else(|| "end".into());
+            w.violate(
+                "C13",
+                format!("outbound-sequence-differs/base={},twin={}", what(&a), what(&b)),
+                format!("packet #{i}: uncancelled run sent {:?}, cancelled run sent {:?}; base {:?} twin {:?}", a.get(i), b.get(i), a, b),
+            );
+        }
+        if base.delivered != twin.delivered {
+            w.violate(
+                "C13",
+                "deliveries-differ".into(),
+                format!("uncancelled run delivered {} messages, cancelled run {}", base.delivered.len(), twin.delivered.len()),
+            );
+        }
+    });
+}
+
+/// C15 (random): fragmentation must not change results, deliveries or outbound bytes.
+fn frag_twin() {
+    let (base, vals) = run_script_world(false);
+    let seed = with(|w| w.seed);
+    let first = second_world(vals, Some(crate::make_sched(seed)));
+    let script = with(|w| gen_script(w, false));
+    let cfg = with(|w| w.cfg.clone());
+    with_session(&cfg, |s| exec_script(s, &script));
+    let twin = with(|w| observe(w));
+    absorb(first);
+    compare_frag(&base, &twin);
+}
+
+fn compare_frag(base: &TwinObs, twin: &TwinObs) {
+    with(|w| {
+        if twin.fragments > 0 {
+            w.probe("twin_fragmented");
+        }
+        if w.cut {
+            return;
+        }
+        if base.results != twin.results {
+            let i = base.results.iter().zip(twin.results.iter()).position(|(x, y)| x != y).unwrap_or(base.results.len().min(twin.results.len()));
+            w.violate(
+                "C15",
+                format!("results-differ/{}", base.results.get(i).map(|s| s.split(':').next().unwrap_or("")).unwrap_or("end")),
+                format!("operation result #{i}: unfragmented {:?}, fragmented {:?}", base.results.get(i), twin.results.get(i)),
+            );
+        }
+        if base.delivered != twin.delivered {
+            w.violate("C15", "deliveries-differ".into(), format!("unfragmented run delivered {} messages, fragmented run {}", base.delivered.len(), twin.delivered.len()));
+        }
+        if base.wires != twin.wires {
+            let c = base.wires.iter().zip(twin.wires.iter()).position(|(x, y)| x != y).unwrap_or(0);
+            w.violate(
+                "C15",
+                "outbound-bytes-differ".into(),
+                format!("connection {c}: unfragmented {} fragmented {}", crate::util::hex(base.wires.get(c).map(|v| &v[..]).unwrap_or(&[])), crate::util::hex(twin.wires.get(c).map(|v| &v[..]).unwrap_or(&[]))),
+            );
+        }
+    });
+}
+
+/// Inbound streams for the exhaustive chunking enumeration (each at most 8 bytes after the
+/// 5-byte CONNACK, i.e. 2^12 chunkings of 13 bytes).
+const STREAMS: [&[u8]; 8] = [
+    &[0x30, 0x06, 0x00, 0x01, b'a', 0x00, b'x', b'y'],             // PUBLISH QoS 0
+    &[0x32, 0x06, 0x00, 0x01, b'a', 0x00, 0x07, 0x00],             // PUBLISH QoS 1
+    &[0x34, 0x06, 0x00, 0x01, b'a', 0x00, 0x09, 0x00],             // PUBLISH QoS 2
+    &[0xD0, 0x00, 0x30, 0x04, 0x00, 0x01, b'b', 0x00],             // PINGRESP + PUBLISH
+    &[0x62, 0x02, 0x00, 0x05, 0x62, 0x03, 0x00, 0x06],             // PUBREL (unknown id) + incomplete PUBREL
+    &[0x40, 0x02, 0x00, 0x09, 0xE0, 0x00],                         // stale PUBACK + DISCONNECT
+    &[0x30, 0x05, 0x00, 0x01, b'c', 0x00, b'z', 0xD0],             // PUBLISH + half of a PINGRESP
+    &[0x90, 0x04, 0x00, 0x09, 0x00, 0x00, 0xD0, 0x00],             // stale SUBACK + PINGRESP
+];
+
+fn frag_once(stream: &[u8], mask: Option<u64>) -> TwinObs {
+    with(|w| {
+        w.twin_mode = true;
+        w.sched = Some(Tape::replay(Vec::new(), 0));
+        w.script_start_pos = w.tape.pos;
+        w.chunk_mask = mask;
+        w.raw_after_connack = Some(stream.to_vec());
+    });
+    let cfg = with(|w| w.cfg.clone());
+    with_session(&cfg, |s| {
+        if let ConnectOutcome::Up(mut conn) = do_connect(s, false) {
+            let opts = ExecOpts { cancellable: true, idle_cancel: true, budget_us: None, timer_is_idle: true };
+            for _ in 0..12 {
+                let r = do_wait(&mut conn, Wait::Poll, Some(opts));
+                if r == Res::Cancelled || r.is_fatal() {
+                    break;
+                }
+            }
+            with(|w| close_conn(w, "frag: end"));
+        }
+    });
+    with(|w| observe(w))
+}
+
+/// C15 (enumerated): every chunking of a short inbound stream.
+fn frag_enum(extra: u64) {
+    let stream = STREAMS[(extra >> 12) as usize % STREAMS.len()];
+    let mask = extra & 0xFFF;
+    let base = frag_once(stream, None);
+    let vals = with(|w| w.tape.vals.clone());
+    let first = second_world(vals, None);
+    let twin = frag_once(stream, Some(mask));
+    absorb(first);
+    with(|w| {
+        w.probe("twin_fragmented");
+        w.probe("chunking_enumerated");
+    });
+    compare_frag(&base, &twin);
+}
